@@ -33,6 +33,7 @@ EXPLANATION = (
     ' (R5, shared with C18.R1) every request is one fresh construction from the arguments of the call. R1 abstractly executes the builders on symbolic byte strings (bytearray index stores, bytes((..)) concatenation, x.to_bytes(2, order), helpers that append the CRC), R4 reads _next_tx as a guarded transition system with an inductive interval invariant.'
     ' (R6, shared with C06.R9) the transport is written only by _send_request or helpers reached only from it.'
     " (R7) self._comm_addr is a constructor parameter stored unchanged on every path and forwarded by the subclasses' constructors: the frames carry the configured bus address."
+    ' (R4, without _next_tx) a counter kept inside request_bytes must be one process-wide cell and its update, followed from the initial value, must yield a different non-zero 16-bit id each time.'
 )
 
 
